@@ -452,7 +452,7 @@ class Variable(Tensor):
         elif a.dtype != object and a.dtype.kind == "f" and a.dtype != np.float64 and not isinstance(initial_value, (Tensor, np.ndarray, np.generic)):
             a = a.astype(np.float64)
         Tensor.__init__(self, a, dt)
-        if dt is None and isinstance(initial_value, float):
+        if dt is None and type(initial_value) is float:
             self._dtype = float32  # tf default for python floats
             self.arr = self.arr.astype(np.float32) if self.arr.dtype != object else self.arr
         self._trainable = trainable
@@ -571,6 +571,17 @@ def _arr(x, dtype=None):
         a = x.arr
     elif isinstance(x, np.ndarray):
         a = x
+        if a.dtype == object and a.size and any(isinstance(e, Tensor) for e in a.reshape(-1)):
+            # numpy array of 0-d tensors (e.g. list-of-tensors arithmetic done by numpy)
+            parts = [_arr(e) if isinstance(e, Tensor) else _oa(e) for e in a.reshape(-1)]
+            if all(p.ndim == 0 for p in parts):
+                b = np.empty(a.shape, dtype=object)
+                flat = b.reshape(-1)
+                for i, p in enumerate(parts):
+                    flat[i] = p[()]
+                a = b
+            else:
+                a = _arr([_arr(e) for e in a.reshape(-1)]).reshape(a.shape + parts[0].shape)
     elif isinstance(x, (SymReal, SymComplex, SymBool)):
         a = _oa(x)
     elif isinstance(x, (list, tuple)):
